@@ -475,6 +475,9 @@ func (env *Env) instantiate(key string, fc *FuncContract, fn *ssa.Function, sig 
 		if exprCalls(en.E, "fresh") {
 			continue
 		}
+		if e.topFC != nil && e.topFC.hides(key, en.Label) {
+			continue
+		}
 		g, err := n.evalBool(en.E)
 		if err != nil {
 			e.errorf("instantiating %s: ensures %q: %v", key, en.Text, err)
